@@ -466,7 +466,10 @@ fn cases(tier: Tier) -> Vec<Case> {
         }
     }
     // ---- fatal-lane memory: sequences of frames, each lane normal (N) / fatal (F) / absent (A)
-    let depth = if tier.is_thorough() { 3 } else { 2 };
+    // quick: every sequence of up to 2 frames, and the sequences of 3 and 4 frames in which at most one lane changes
+    // its role per step is not enough for "A fatal, B fatal, A fatal again, then the rest alone": depth 3 complete in
+    // quick plus the 4-frame family below; thorough: depth 4 complete
+    let depth = if tier.is_thorough() { 4 } else { 3 };
     let mut fseqs: Vec<Vec<[u8; 3]>> = vec![vec![]];
     for _ in 0..depth {
         let mut next = Vec::new();
@@ -488,6 +491,35 @@ fn cases(tier: Tier) -> Vec<Case> {
         fseqs.retain(|s| !s.is_empty() || true);
     }
     fseqs.retain(|s| !s.is_empty());
+    if !tier.is_thorough() {
+        // 4-frame family: three frames in which lanes announce fatal states in every order with repetition (each frame:
+        // one lane fatal, the others as they are), then every possible fourth frame
+        for a in 0..3usize {
+            for b2 in 0..3usize {
+                for c in 0..3usize {
+                    let mut frames: Vec<[u8; 3]> = Vec::new();
+                    let mut gone = [false; 3];
+                    for f in [a, b2, c] {
+                        let mut st = [0u8; 3];
+                        for l in 0..3 {
+                            st[l] = if l == f { 1 } else if gone[l] { 2 } else { 0 };
+                        }
+                        gone[f] = true;
+                        frames.push(st);
+                    }
+                    for code in 0..27u8 {
+                        let st = [code % 3, (code / 3) % 3, code / 9];
+                        if st.iter().all(|x| *x == 2) {
+                            continue;
+                        }
+                        let mut t = frames.clone();
+                        t.push(st);
+                        fseqs.push(t);
+                    }
+                }
+            }
+        }
+    }
     fseqs.sort();
     fseqs.dedup();
     for (s, base) in fseqs.iter().flat_map(|s| [0u8, 3, 6].into_iter().map(move |b| (s.clone(), b))) {
